@@ -115,7 +115,7 @@ def per_diff_length(ctx, rule, a):
     if c is None or a.translator is None:
         ctx.missing(rule, "per-diff closure of %s" % a.name)
         return
-    b = c.built
+    b = inl(F, c, a.translator)
     tcalls = [(blk, t) for blk, t in b.calls() if F.local_callee(c, t) is a.translator]
     applies = [blk for blk, t in b.calls(r"VectorDiff::<.*>::apply$")]
     nested = None
